@@ -132,6 +132,8 @@ impl Iterator for ChoiceIterator<'_> {
 
     fn next(&mut self) -> Option<Self::Item> {
         loop {
+            #[cfg(feature = "verif-hooks")]
+            crate::verif::step(crate::verif::site::CHOICE_NEXT);
             // take values from current iter as long as we can
             if let Some(current_iter) = &mut self.current_iter {
                 let next = current_iter.next();
